@@ -254,7 +254,8 @@ def step (d : DState) (line : String) : DState × List String :=
     let st3 := applyCalls w (d.H - 1) poT poS st2 c2
     let c3 := run 48
     let st4 := applyCalls w (d.H - 1) poT poS st3 c3
-    ({ d with st := st4 }, (c1.map printCall) ++ (top'.map printTopCall) ++ (c2.map printCall) ++ (c3.map printCall))
+    let tk := topTreeConfig n
+    ({ d with st := st4 }, [s!"TK {tk.1} {tk.2.1} {tk.2.2}"] ++ (c1.map printCall) ++ (top'.map printTopCall) ++ (c2.map printCall) ++ (c3.map printCall))
   | "exec" :: "omptsm" :: ts =>
     let cs := executeTsm d.treeS d.treeT d.periodic (kv ts "flags" 63) (kv ts "upper" 2) true
     ({ d with st := applyCalls (if d.wide then weightWide else weight) (d.H - 1) d.treeT.partsOf d.treeS.partsOf d.st cs }, cs.map printCall)
@@ -420,7 +421,8 @@ def step (d : DState) (line : String) : DState × List String :=
     let st3 := applyCalls (if d.wide then weightWide else weight) (d.H - 1) po po st2 c2
     let c3 := run d.tree 48
     let st4 := applyCalls (if d.wide then weightWide else weight) (d.H - 1) po po st3 c3
-    ({ d with st := st4 }, (c1.map printCall) ++ (top.map printTopCall) ++ (c2.map printCall) ++ (c3.map printCall))
+    let tk := topTreeConfig n
+    ({ d with st := st4 }, [s!"TK {tk.1} {tk.2.1} {tk.2.2}"] ++ (c1.map printCall) ++ (top.map printTopCall) ++ (c2.map printCall) ++ (c3.map printCall))
   | "exec" :: "omp" :: ts =>
     let cs := executeOmp d.tree d.periodic (kv ts "flags" 63) (kv ts "upper" 2)
     let po := d.tree.partsOf
